@@ -522,6 +522,20 @@ theorem dict_accounted : Gen.Send.sendersDict =
      "netip.Addr.IsLinkLocalUnicast || IsLinkLocalMulticast = isLLUorLLM",
      "package-level address variables of package packet = their initialisers"] := by decide
 
+/-- which session value each regenerated function reads, by name and position: the Ethernet source is
+    `NICInfo.HostAddr4.MAC` in every send path of the session (the theorems above bind it positionally) -/
+theorem session_args_accounted : Gen.Send.sendersSessionArgs = [
+    ("arpRequest", ["HostAddr4_MAC"]), ("arp_spoofer_RequestRaw", ["HostAddr4_MAC"]), ("arp_spoofer_reply", ["HostAddr4_MAC"]),
+    ("dhcp4_spoofer_sendDHCP4Packet", []),
+    ("dns_naming_SendSSDPSearch", ["HostAddr4_MAC", "ssdpIPv4Addr_MAC", "HostAddr4_IP", "ssdpIPv4Addr_IP", "mSearchString"]),
+    ("dns_naming_sendMDNS", ["HostAddr4_MAC"]), ("dns_naming_sendNBNS", []),
+    ("icmp4SendPacket", ["HostAddr4_MAC"]), ("icmp6SendPacket", ["HostAddr4_MAC"]),
+    ("ICMP4SendEchoRequest", ["HostAddr4_MAC"]), ("ICMP6SendEchoRequest", ["HostAddr4_MAC"]),
+    ("ICMP6SendNeighborAdvertisement", ["HostAddr4_MAC"]), ("ICMP6SendNeighbourSolicitation", ["HostAddr4_MAC"]),
+    ("arp_spoofer_AnnounceTo", ["HostAddr4_MAC"]), ("arp_spoofer_Probe", ["HostAddr4_MAC"]), ("arp_spoofer_Reply", ["HostAddr4_MAC"]),
+    ("arp_spoofer_Request", ["HostAddr4_MAC", "HostAddr4_IP", "HostAddr4_Port"]),
+    ("arp_spoofer_RequestTo", ["HostAddr4_MAC", "HostAddr4_IP", "HostAddr4_Port"])] := by decide
+
 theorem setChecksum_translated : Gen.Send.setChecksumTranslated = true := by decide
 
 /-- non-vacuity: a regenerated send path produces a frame on real arguments -/
